@@ -15,6 +15,7 @@ fn cfg() -> Cfg {
         hash_xor: 0,
         contract: None,
         adopt_alive: false,
+        blind: false,
         judge: None,
         log_level: 0,
         sweep_every: 0,
